@@ -1,7 +1,11 @@
 #!/bin/bash
-# Builds the whole harness offline from files on disk (path dependencies on /repo).
+# Builds the whole harness offline from files on disk (path dependencies on /repo):
+# the main workspace (serial builds of every property binary) and the separate `parallel` workspace used by C14.
+# libFuzzer targets (harness/fuzz) are built on demand by the thorough tier.
 set -eu
 ROOT="$(cd "$(dirname "$0")" && pwd)"
 export CARGO_NET_OFFLINE=true
 cd "$ROOT/harness"
-cargo build --release --workspace 2>&1 | tail -n 5
+cargo build --release --workspace 2>&1 | tail -n 3
+cd "$ROOT/harness/par"
+cargo build --release 2>&1 | tail -n 3
